@@ -115,7 +115,8 @@ class C13(Check):
                 if res['ok']:
                     bl.bump(st, 'unit:spilled' if res['spill'] else 'unit:in-memory')
             else:
-                ops = rng.choice([['B'], ['S'], ['B', 'S'], ['S', 'B'], ['S', 'S'], ['P1', 'S', 'I']])
+                ops = rng.choice([['B'], ['S'], ['B', 'S'], ['S', 'B'], ['S', 'S'], ['P1', 'S', 'I'], ['?B', 'B'], ['?S', 'B'],
+                                  ['?B', '?S', 'I'], ['?S', '?S', '?B']])
                 te = 'chunked' if chunked else None
                 clh = None if cl < 0 else str(cl)
                 if chunked and rng.random() < .2:
@@ -171,10 +172,15 @@ class C13(Check):
                     return f'{kind}:oversize-not-rejected', f'{n} bytes against max_body_size {maxb}: _body_read gave {r["err"] or "a body"}'
                 if w['status'] != 413:
                     return f'{kind}:oversize-status', f'{n} bytes against max_body_size {maxb}: WSGI answered {w["status"]}'
-                for x, where in ((r, 'unit'), (w, 'wsgi')):
+                # a handler that catches the 413 and asks again: still refused, nothing more consumed
+                w2 = bl.run_wsgi('@', buf, maxb, clh, te, raw, sched, ['?B', '?B', '?S'])
+                for x, where in ((r, 'unit'), (w, 'wsgi'), (w2, 'wsgi, repeated access')):
                     if x['maxoff'] > off + buf:
                         return (f'{kind}:read-too-far', f'{where}: stream consumed up to offset {x["maxoff"]}; the first byte '
                                 f'over the limit is at {off}, buffer {buf}')
+                if len(w2['outs']) != 3 or any(t != 'e:HTTP413' for t in w2['outs']):
+                    return ('second-access-after-413', f'{n} bytes against max_body_size {maxb}: first access 413, later '
+                            f'accesses gave {w2["outs"][1:]}')
                 return None
             if not r['ok']:
                 return f'{kind}:within-limit-rejected', f'{n} bytes against max_body_size {maxb}: _body_read raised {r["err"]}'
